@@ -22,6 +22,17 @@ def run_case(s, ro_txt, kind, kw, mid=2, pretty=False, ctx=None, noise_rng=None)
 HOSTILE_NAMES = ['NEWS,AM,S1', 'S1', 's1', 'S1 ', '5" x 7\' card', 'S10', ' S1', 'S01', 'B"][itemID=\'B\'][itemID="B',
                  '{6B29FC40-CA47}']
 HOSTILE_UNKNOWN = 'SPORT,AM,S1'       # not in any running order, but its last component is
+# IDs longer than the protocol's nominal 128 characters that differ only after that length
+_LONG = 'OPENMEDIA/2020-01-01/' + 'x' * 107
+LONG_NAMES = [_LONG + 'A', _LONG + 'C', _LONG + 'D', _LONG + 'E']
+LONG_UNKNOWN = _LONG + 'B'
+assert len(_LONG) == 128
+
+
+def _unknown_for(names):
+    if names is LONG_NAMES:
+        return LONG_UNKNOWN
+    return HOSTILE_UNKNOWN
 
 
 def story_grid(s, nmax, layouts=LAYOUTS, pretties=(False, True), kmax=3, full=True, timed=(True,),
@@ -35,7 +46,7 @@ def story_grid(s, nmax, layouts=LAYOUTS, pretties=(False, True), kmax=3, full=Tr
                 for tm in timed:
                     ro_txt = gen.grid_ro(S, layout, pretty, timed=tm)
                     for kind, kw in gen.story_grid_messages(S, kmax=kmax, full=full,
-                                                            unk='ZZ-unknown' if names is STORY_NAMES else HOSTILE_UNKNOWN):
+                                                            unk='ZZ-unknown' if names is STORY_NAMES else _unknown_for(names)):
                         idx += 1
                         if not s.mine(idx):
                             continue
@@ -65,7 +76,7 @@ def item_grid(s, nmax, pretties=(False, True), kmax=3, full=True, inters=(False,
                         stories.append(st)
                     ro_txt = B.ro_doc('RO', 1, stories, ed_start='2020-01-01T12:30:00', pretty=pretty)
                     for kind, kw in gen.item_grid_messages(names[pos], I, kmax=kmax, full=full,
-                                                           unk=HOSTILE_UNKNOWN if item_names else 'zz-unknown',
+                                                           unk=_unknown_for(item_names) if item_names else 'zz-unknown',
                                                            elsewhere='only-elsewhere'):
                         idx += 1
                         if not s.mine(idx):
@@ -73,6 +84,30 @@ def item_grid(s, nmax, pretties=(False, True), kmax=3, full=True, inters=(False,
                         run_case(s, ro_txt, kind, kw, pretty=pretty,
                                  noise_rng=s.rng('split', idx) if (item_names and idx % 2) else None)
     s.hist['grid_cases_total'] = idx
+
+
+def many_unresolvable(s, counts=(11, 12, 13, 25, 60)):
+    """One message naming many elements that cannot be found (or many duplicates) plus one
+    that can: one report per element however many there are, and the resolvable one is applied."""
+    idx = 0
+    S = ['A', 'B', 'C']
+    ro_txt = gen.grid_ro(S, 'before', pretty=False, items=3)
+    for n in counts:
+        for pos in (0, n // 2, n):
+            unknown = ['gone-%d' % k for k in range(n)]
+            cases = []
+            for kind in ('roStoryDelete', 'EAStoryDelete'):
+                cases.append((kind, dict(ids=unknown[:pos] + ['B'] + unknown[pos:])))
+            for kind in ('roItemDelete', 'EAItemDelete'):
+                cases.append((kind, dict(story_ref='B', ids=unknown[:pos] + ['B.1'] + unknown[pos:])))
+            for kind in ('roStoryInsert', 'EAStoryInsert'):
+                dups = [gen.simple_story(S[k % 3], 1) for k in range(n)]
+                cases.append((kind, dict(target='B', carried=dups[:pos] + [gen.simple_story('NEW', 1)] + dups[pos:])))
+            for kind, kw in cases:
+                idx += 1
+                if s.mine(idx):
+                    run_case(s, ro_txt, kind, kw, ctx={'many': n})
+                    s.hist['many_unresolvable'] += 1
 
 
 def weighted_kinds(rng, weights):
